@@ -9,6 +9,7 @@ mod fsecodec;
 mod fsex;
 mod ring;
 mod util;
+mod zf;
 
 use std::alloc::{GlobalAlloc, Layout, System};
 use std::sync::atomic::{AtomicUsize, Ordering};
@@ -102,6 +103,8 @@ fn main() {
         "c12enc" => fsex::c12enc(rest),
         "c13dec" => hufx::c13dec(rest),
         "c13enc" => hufx::c13enc(rest),
+        "zfexec" => zf::zfexec(rest),
+        "seqrows" => zf::seqrows(rest),
         "mkcorpus" => gen::mkcorpus(rest),
         "encexec" => enc::encexec(rest),
         "encgraph" => enc::encgraph(rest),
